@@ -8,13 +8,28 @@ open Anysystem
 
 abbrev RS := RState PState
 
+/-- The reference state of a checker state.  Flights are listed in id order, except that within a group of identical messages
+    (same message, sender, receiver) they follow the dependency resolver's queue: a duplicated message is re-queued under its OLD
+    id at the back of its group (`push_with_fixed_id`), so id order is not insertion order inside a group — and the reduced
+    semantics (`oldestIdentical`) depends on the order inside a group only. -/
 def rInit (s : Sys) : RS :=
+  let evs := s.events.events
+  let step := fun (acc : List Flight × List ((Msg × Nat × Nat) × List Nat)) (x : Nat × Ev) =>
+    match x.2 with
+    | .msg m sr d o =>
+      let k : Msg × Nat × Nat := (m, sr, d)
+      match acc.2.find? (fun q => decide (q.1 = k)) with
+      | some (_, qid :: rest) =>
+        let f : Flight := match evs.find? (fun y => y.1 == qid) with
+          | some (_, .msg m' s' d' o') => ⟨m', s', d', o'⟩
+          | _ => ⟨m, sr, d, o⟩
+        (acc.1 ++ [f], acc.2.map (fun q => if decide (q.1 = k) then (q.1, rest) else q))
+      | _ => (acc.1 ++ [⟨m, sr, d, o⟩], acc.2)
+    | _ => acc
   { procs := s.nodes.flatMap fun nd => nd.2.procs.map fun pe => (pe.1, ({ st := pe.2.st, outbox := pe.2.outbox } : RProc PState)),
     crashedNodes := (s.nodes.filter (·.2.crashed)).map (·.1),
-    flights := s.events.events.filterMap (fun x => match x.2 with
-      | .msg m sr d o => some (⟨m, sr, d, o⟩ : Flight)
-      | _ => Option.none),
-    timers := s.events.events.filterMap (fun x => match x.2 with
+    flights := (evs.foldl step ([], s.events.resolver.messages)).1,
+    timers := evs.filterMap (fun x => match x.2 with
       | .timer p n d => some (⟨p, n, d⟩ : PTimer)
       | _ => Option.none),
     net := s.net, trace := s.trace }
